@@ -8,6 +8,25 @@ def showGroup : Group → String
   | .mono i => s!"m:{i}"
   | .pair l r n => s!"p:{l}:{r}:{charsToHex n}"
 
+/-- preorder tree spec: `D:<hex>:<n>` followed by n subtrees, `F:<hex>`. -/
+partial def parseTree : List String → Option (Node × List String)
+  | [] => none
+  | t :: rest =>
+    match t.splitOn ":" with
+    | ["F", h] => (hexToChars h).map fun n => (Node.node n false [], rest)
+    | ["D", h, k] => do
+      let n ← hexToChars h
+      let k ← parseNat? k
+      let rec kids (k : Nat) (r : List String) (acc : List Node) : Option (List Node × List String) :=
+        match k with
+        | 0 => some (acc.reverse, r)
+        | k + 1 => do
+          let (c, r') ← parseTree r
+          kids k r' (c :: acc)
+      let (cs, r) ← kids k rest []
+      pure (Node.node n true cs, r)
+    | _ => none
+
 def namesOp (toks : List String) : String :=
   match toks with
   | ["safe", h] => match hexToChars h with
@@ -38,6 +57,14 @@ def namesOp (toks : List String) : String :=
     match items.mapM hexToChars with
     | some ns => " ".intercalate ((combine ns).map showGroup)
     | none => "bad-op"
+  | "lookup" :: akai :: h :: tree =>
+    match parseNat? akai, hexToChars h, parseTree tree with
+    | some a, some path, some (root, _) =>
+      let toks := tokenize path
+      (match lookupIdx (a != 0) root toks toks 0 [] with
+        | .ok idx => "found " ++ showNats idx
+        | .error msg => "notfound " ++ charsToHex msg)
+    | _, _, _ => "bad-op"
   | ["tokens", akai, h] => match parseNat? akai, hexToChars h with
       | some a, some s => " ".intercalate ((tokenize s).map fun t => charsToHex (sanitizeToken (a != 0) t))
       | _, _ => "bad-op"
